@@ -94,6 +94,8 @@ pub struct SpellOpts {
     pub star_comments: bool,
     /// `// ...` comments to the end of the line (the lexer of this code base knows them)
     pub line_comments: bool,
+    /// no white space at all between two lexemes that cannot run together (`S=TRUE`, `a:=b;c:=d;`)
+    pub touch: bool,
     /// blanks only (no line breaks / comments) – mild C01 spelling
     pub mild: bool,
     /// comments that look like OSCAT description markers / blocks (text preprocessor): 0 = none so
@@ -116,6 +118,7 @@ impl SpellOpts {
             tight_trivia: false,
             star_comments: false,
             line_comments: false,
+            touch: false,
             mild: false,
             oscat_phase: std::cell::Cell::new(255),
         }
@@ -136,6 +139,7 @@ impl SpellOpts {
             tight_trivia: false,
             star_comments: false,
             line_comments: false,
+            touch: false,
             mild: false,
             oscat_phase: std::cell::Cell::new(0),
         }
@@ -227,9 +231,30 @@ fn comment(t: &mut Tape, o: &SpellOpts) -> String {
     format!("(*{}*)", body)
 }
 
+/// may `next` follow `prev` without anything between them?  Not when both ends are word-like (they
+/// would be one word) and not when the two characters form a lexeme or open a comment
+pub fn can_touch(prev: &str, next: &str) -> bool {
+    let (a, b) = match (prev.chars().last(), next.chars().next()) {
+        (Some(a), Some(b)) => (a, b),
+        _ => return false,
+    };
+    let wordish = |c: char| c.is_alphanumeric() || matches!(c, '_' | '#' | '%' | '\'' | '"' | '$' | '.') || !c.is_ascii();
+    if wordish(a) && wordish(b) {
+        return false;
+    }
+    // a sign directly in front of a number is a different lexeme stream in some positions
+    if matches!(a, '-' | '+') && b.is_ascii_digit() {
+        return false;
+    }
+    !matches!((a, b), ('(', '*') | ('*', ')') | ('*', '*') | (':', '=') | ('=', '>') | ('<', '=') | ('<', '>') | ('>', '=') | ('.', '.') | ('/', '/') | ('/', '*') | ('*', '/') | ('&', '&') | ('=', '=') | ('{', _) | (_, '}'))
+}
+
 fn trivia(t: &mut Tape, o: &SpellOpts, canonical: &str, may_be_empty: bool) -> String {
     if !o.trivia {
         return canonical.to_string();
+    }
+    if o.touch && may_be_empty && !canonical.is_empty() && !o.mild && t.ratio(1, 3) {
+        return String::new();
     }
     if o.mild {
         return match t.below(4) {
@@ -321,8 +346,8 @@ pub fn layout(lexemes: &[Lexeme], o: &SpellOpts, t: &mut Tape) -> (Layout, Vec<S
                     String::new()
                 }
             }
-            Join::Space => trivia(t, o, " ", false),
-            Join::Line => trivia(t, o, "\n", false),
+            Join::Space => trivia(t, o, " ", o.touch && i > 0 && can_touch(spelled.last().map(|s| s.as_str()).unwrap_or(""), &lx.text)),
+            Join::Line => trivia(t, o, "\n", o.touch && i > 0 && can_touch(spelled.last().map(|s| s.as_str()).unwrap_or(""), &lx.text)),
         };
         if !triv.is_empty() {
             let s = text.len();
